@@ -36,7 +36,11 @@ class CaseTimeout(BaseException):
     pass
 
 
+_FIRED = [0]
+
+
 def _alarm(signum, frame):
+    _FIRED[0] += 1
     raise CaseTimeout()
 
 
@@ -46,6 +50,7 @@ def call_limited(fn, secs):
     old_handler = signal.signal(signal.SIGALRM, _alarm)
     remaining, _ = signal.setitimer(signal.ITIMER_REAL, secs)
     t0 = time.time()
+    fired0 = _FIRED[0]
     try:
         try:
             val = fn()
@@ -55,6 +60,10 @@ def call_limited(fn, secs):
             return ("timeout", None)
         except Exception as exc:  # noqa: BLE001 - a library failure is an observation
             signal.setitimer(signal.ITIMER_REAL, 0)
+            if _FIRED[0] != fired0:
+                # the alarm went off inside a C call (np.dot, __new__): CPython reports it as
+                # SystemError "returned a result with an exception set" - it is a time-out
+                return ("timeout", None)
             return ("raise", exc)
     finally:
         signal.setitimer(signal.ITIMER_REAL, 0)
